@@ -313,10 +313,10 @@ def drift(scen, events):
     for ln, e in events:
         if e["ev"] == "report":
             real.setdefault(e["n"], []).append((e["s"], e["e"], e["err"]))
-    if any(s.get("cf") == "i" and s.get("cp") or (s.get("op") == "rot" and s.get("f") == "i") for s in scen["steps"]):
-        # index corruption is concretised in several ways (+1, +2, a flipped bit): only the error classes are comparable
-        pred = {n: [x[2] for x in v] for n, v in pred.items()}
-        real = {n: [x[2] for x in v] for n, v in real.items()}
+    if any((s.get("cf") == "i" and s.get("cp")) or (s.get("op") == "rot" and s.get("f") == "i") for s in scen["steps"]):
+        # the model's data domain does not tell entries of different indexes apart: an entry that lands on another
+        # index through a damaged Index field is "the same entry" there but not in the real code. Not comparable.
+        return 0
     d = 0
     for n, ps in pred.items():
         rs = real.get(n, [])
@@ -402,6 +402,15 @@ def check(pid, tier, seed):
     add("int", pick(rng, int_all, prof["nint"]))
     add("sim", sims)
     add("auto", sims[:max(8, len(sims) // 5)], auto=True)
+    # index corruption with wild values (a flipped high bit, +2..+6) instead of the model's +1: harness-only variants
+    wild = []
+    for sc in list(scens):
+        if any((st.get("cf") == "i" and st.get("cp") and st.get("cm") == "alt2") or
+               (st.get("op") == "rot" and st.get("f") == "i" and st.get("m") == "alt2") for st in sc["steps"]):
+            steps = [dict(st, **({"cm": "alt3"} if st.get("cf") == "i" and st.get("cp") else {}),
+                          **({"m": "alt3"} if st.get("op") == "rot" and st.get("f") == "i" else {})) for st in sc["steps"]]
+            wild.append(steps)
+    add("wild", wild[:max(10, len(scens) // 10)])
     for st in SELFTESTS:
         scens.append(mk_scen(st["id"], st["steps"], seed))
     scens.append(mk_scen("st-doctored", SELFTESTS[0]["steps"], seed, doctor="ok"))
